@@ -1414,3 +1414,100 @@ Section setbal.
     apply (rb_spenders_set_bal n (rb_remove_conflict_set_bal n) _ (Some s1)).
   Qed.
 End setbal.
+
+(** * Assembly *)
+
+Lemma Inv_to_InvD U s F : Inv U s F → InvD U F (blocks s) ∅ s (bal s).
+Proof.
+  intros HI. destruct HI as [Hwf Hbs Hbc Htr Hum Hcs Hcc Hus Hds Hdc Huc Huis Huic Hbal Hlo].
+  assert (Hsp : ∀ op, (∃ m, conf_spender U F op m) ↔ (∃ m : N, conf_spender U F op m ∧ ¬ m ∈ (∅ : gset N))).
+  { intros op. split; [intros [m Hm]; exists m; split; [done|set_solver]|intros (m & Hm & _); eauto]. }
+  constructor; simpl.
+  - done.
+  - intros t h bh. rewrite Htr. split; [intros ?; split; [done|set_solver]|by intros [? _]].
+  - intros t. rewrite Hum. split; [by left|]. intros [?|[? _]]; [done|set_solver].
+  - intros t h bh i cv Hl. destruct (Hcs _ _ _ _ _ Hl) as (H1 & H2 & H3 & H4).
+    split; [done|]. split; [set_solver|]. split; [done|]. split; [done|]. rewrite H4. apply Hsp.
+  - intros t h bh i chg H1 H2 _. eapply Hcc; eauto.
+  - intros op h bh. rewrite Hus, Hsp. split.
+    + intros (? & ? & ?). split; [done|]. split; [done|]. split; [set_solver|done].
+    + intros (? & ? & _ & ?). done.
+  - intros m h bh j a ck Hl. destruct (Hds _ _ _ _ _ _ Hl) as (H1 & op & ph & pbh & H2 & H3).
+    split; [done|]. exists op, ph, pbh. split; [done|]. split; [set_solver|done].
+  - intros m h bh j op ph pbh chg H1 H2 _ H3 H4. eapply Hdc; eauto.
+  - intros op a chg. rewrite Huc. split.
+    + intros (? & ? & ?). split; [by left|done].
+    + intros ([?|[? _]] & ? & ?); [done|set_solver].
+  - intros op l Hl. destruct (Huis _ _ Hl) as (H1 & H2 & H3). split; [done|]. split; [done|].
+    intros u. rewrite H3. split; [by left|]. intros [?|(? & _)]; [done|set_solver].
+  - intros op u [Hu|(? & _)]; [|set_solver]. by eapply Huic.
+  - rewrite Hbal. reflexivity.
+  - done.
+Qed.
+
+Section main.
+  Context (U : gmap N tx).
+  Hypothesis Hdesc : descendants_correct U.
+  Hypothesis Hrc : remove_conflict_correct U.
+
+  Lemma rollback_refines s0 F h :
+    wf_universe U = true → Inv U s0 F →
+    ∃ s', rollback U (fuel_of U) h s0 = Some s' ∧ Inv U s' (spec_disconnect U F h).
+  Proof.
+    intros HwfU HInv0.
+    pose proof (inv_wf U s0 F HInv0) as Hfw.
+    rewrite rollback_unfold. cbv zeta.
+    set (hs := heights_from s0 h).
+    (* the detaching loop *)
+    assert (HL0 : loop_inv U F s0 (s0, bal s0, []) []).
+    { exists ∅. split; [by apply Inv_to_InvD|]. split.
+      - intros t. split; [set_solver|]. intros (? & ? & _ & ?%elem_of_nil). done.
+      - intros op. split; [by intros ?%elem_of_nil|]. intros (t & ? & _). set_solver. }
+    pose proof (rollback_blocks U HwfU F s0 HInv0 hs _ [] HL0 (heights_from_NoDup s0 h)
+                  ltac:(by intros ? _ ?%elem_of_nil)) as HL.
+    destruct (foldl (rb_step_block U) (s0, bal s0, []) hs) as [[s1 mb] cbc].
+    destruct HL as (done & HID & Hdone0 & Hcbc). simpl in HID, Hdone0, Hcbc.
+    assert (Hdone : ∀ t, t ∈ done ↔ ∃ hh bh, f_conf F !! t = Some (hh, bh) ∧ h <= hh).
+    { intros t. rewrite Hdone0. split.
+      - intros (hh & bh & Hc & Hin). apply heights_from_spec in Hin as [? _]. eauto.
+      - intros (hh & bh & Hc & Hle). exists hh, bh. split; [done|]. apply heights_from_spec. split; [done|].
+        destruct (inv_blocks_complete U s0 F HInv0 _ _ _ Hc) as (br & Hbr & _). rewrite Hbr. eauto. }
+    (* block records deleted: the invariant for the facts that still contain the coinbase descendants *)
+    pose proof (InvD_finish U F s0 HInv0 h done s1 mb HID Hdone0) as HI1.
+    set (s2 := rb_del_blocks s1 hs) in *.
+    set (F1 := disc_F1 U F h) in *.
+    set (cb := disc_cb U F h).
+    assert (HPD : PD U F1 cb (set_bal (λ _, mb) s2) F1).
+    { split; [done|]. split; [done|]. split; [done|]. split; [done|]. split; [done|].
+      intros c p _ ? ?. done. }
+    assert (Hcb1 : ∀ op, op ∈ cbc → op.1 ∈ cb).
+    { intros op (t & Ht & Hop)%Hcbc. unfold cb_outs in Hop.
+      destruct (U !! t) as [x|] eqn:Hx; [|by apply elem_of_nil in Hop].
+      destruct (t_coinbase x) eqn:Hcbx; [|by apply elem_of_nil in Hop].
+      apply elem_of_list_fmap in Hop as (i & -> & _). simpl.
+      apply disc_cb_elem. split; [by apply Hdone|]. unfold is_coinbase. by rewrite Hx. }
+    destruct (PD_outpoints U HwfU Hdesc Hrc F1 cb cbc _ F1 HPD Hcb1) as (s' & Fk & Hs' & HPD' & _ & Hnosp).
+    assert (HFk : Fk = remove_unconf_with_descendants U F1 cb).
+    { eapply (PD_final U HwfU Hdesc F1 cb s' Fk cbc HPD'); [| | | |exact Hnosp].
+      - intros r [(hh & bh & Hc & Hle) Hcbr]%disc_cb_elem [Hu|[_ ?]]%disc_unconf_elem; [|congruence].
+        eapply (fw_disjoint U F Hfw r); [rewrite Hc; eauto|done].
+      - intros r x i [Hr Hcbr]%disc_cb_elem Hx Hi. apply Hcbc. exists r. split; [by apply Hdone|].
+        unfold cb_outs. rewrite Hx. unfold is_coinbase in Hcbr. rewrite Hx in Hcbr. rewrite Hcbr.
+        apply elem_of_list_fmap. exists i. split; [done|]. by apply rb_elem_indices.
+      - intros t Ht. apply (fw_in_universe U F1 (disc_facts_wf U F h Hfw)). by right.
+      - intros r [(hh & bh & Hc & _) _]%disc_cb_elem. apply (fw_in_universe U F Hfw). left. rewrite Hc. eauto. }
+    rewrite rb_phaseD_set_bal in Hs'.
+    destruct (rb_phaseD U (fuel_of U) s2 cbc) as [s4|]; [|done].
+    simpl in Hs'. injection Hs' as <-.
+    exists (set_bal (λ _, mb) s4). split; [done|].
+    destruct HPD' as (HI' & _). rewrite HFk in HI'.
+    rewrite spec_disconnect_unfold. exact HI'.
+  Qed.
+
+  Lemma step_preserves_disconnect_hyp h : step_preserves U (Disconnect h).
+  Proof.
+    intros m sm HwfU HInv Hclk _. simpl.
+    destruct (rollback_refines (st m) (fs sm) h HwfU HInv) as (s' & Hs' & HI').
+    rewrite Hs'. split; [done|]. split; [exact HI'|exact Hclk].
+  Qed.
+End main.
